@@ -170,4 +170,4 @@ func vfC15RunCLI(c *vt.Ctx, s vfC15CLIScenario) {
 	}
 }
 
-func TestVerifC15TerwayCLI(t *testing.T) { vt.Run(t, vfC15GenCLI, vfC15RunCLI) }
+func TestVerifC15TerwayCLI(t *testing.T) { vt.Run(t, vfC15GenCLI, g.NoPanic(vfC15RunCLI)) }
